@@ -362,6 +362,12 @@ fn allows_mate_in_one(p: &Pos, m: &Move) -> bool {
 }
 
 pub fn c11_case(case: &SearchCase, kmax: u64, st: &mut Stats) -> CaseResult {
+    c11_case_opt(case, kmax, true, st)
+}
+/// `judge_ii` = false for cases with a game history: a move that "walks into a mate in one" may be
+/// a correct choice when the mating reply would be a third occurrence, so clause (ii) is only judged
+/// on history-free cases; (i) and (iii) hold with any history
+pub fn c11_case_opt(case: &SearchCase, kmax: u64, judge_ii: bool, st: &mut Stats) -> CaseResult {
     st.eval();
     // The FEN's move counters are part of "every legal position": half of the cases are rebuilt
     // with a half-move clock of up to 99 (a quiet mating move then makes the hundredth half-move;
@@ -383,7 +389,7 @@ pub fn c11_case(case: &SearchCase, kmax: u64, st: &mut Stats) -> CaseResult {
     let legal = p.legal_moves();
     let mating: Vec<Move> = legal.iter().filter(|m| is_mate_move(p, m)).cloned().collect();
     let walks_into: Vec<bool> = legal.iter().map(|m| allows_mate_in_one(p, m)).collect();
-    let can_avoid = walks_into.iter().any(|x| !x);
+    let can_avoid = judge_ii && walks_into.iter().any(|x| !x);
     let some_walk = walks_into.iter().any(|x| *x);
     let m1 = !mating.is_empty();
     let special_only = m1 && mating.iter().all(|m| matches!(m.promo, Some(Kind::Knight) | Some(Kind::Rook) | Some(Kind::Bishop)) || matches!(p.classify(m), MoveClass::Castle | MoveClass::EnPassant));
@@ -1048,6 +1054,57 @@ pub fn run_c11(ctx: &mut Ctx) {
     }
     run_prop(
         ctx,
+        "near_mate_positions_reached_through_a_game_with_repetitions",
+        mate_strategy,
+        t.pick(6_000, 150_000),
+        move |r, st| {
+            let Some((start, mut moves)) = mate_case_moves(r) else {
+                st.label("recipe_discarded");
+                return Ok(());
+            };
+            // a history: the position before the last two plies repeated once or twice (out and back)
+            let mut p = start.clone();
+            for m in &moves {
+                p = p.apply(m);
+            }
+            if let Some(c) = find_cycle(&p, r.c, r.c.rotate_left(7)) {
+                for _ in 0..1 + (r.variant % 2) {
+                    moves.extend(c.iter().cloned());
+                }
+                st.label("history_with_repetition_cycles");
+            }
+            if moves.is_empty() {
+                return Ok(());
+            }
+            let Ok(case) = make_case(&start, &moves) else { return Ok(()) };
+            if case.root.legal_moves().is_empty() {
+                st.label("terminal_root_skipped");
+                return Ok(());
+            }
+            st.sample(|| case_json(&start, &moves));
+            c11_case_opt(&case, kmax, false, st)
+        },
+        move |r| {
+            let mut v = json!({"fen": null});
+            if let Some((start, mut moves)) = mate_case_moves(r) {
+                let mut p = start.clone();
+                for m in &moves {
+                    p = p.apply(m);
+                }
+                if let Some(c) = find_cycle(&p, r.c, r.c.rotate_left(7)) {
+                    for _ in 0..1 + (r.variant % 2) {
+                        moves.extend(c.iter().cloned());
+                    }
+                }
+                v = case_json(&start, &moves);
+                v["with_history"] = json!(true);
+            }
+            v["kmax"] = json!(kmax);
+            v
+        },
+    );
+    run_prop(
+        ctx,
         "mate_only_by_knight_promotion",
         underpromo_strategy,
         t.pick(18_000, 300_000),
@@ -1101,7 +1158,7 @@ pub fn replay_c11(case: &Value) -> CaseResult {
     if c.root.legal_moves().is_empty() {
         return Ok(());
     }
-    c11_case(&c, kmax, &mut Stats::new())
+    c11_case_opt(&c, kmax, case.get("with_history").is_none(), &mut Stats::new())
 }
 
 // ---------------------------------------------------------------------------------------------
